@@ -1,0 +1,16 @@
+//go:build !verif
+// +build !verif
+
+package osm
+
+// Inert counterparts of the verification hooks (see verif_hook_on.go).
+
+func verifGate(point string, kind byte, id int64) {}
+
+func verifNop() {}
+
+func verifEnter(kind byte, id int64) func() { return verifNop }
+
+func verifRec(ev string, kind byte, id int64, has, need bool) {}
+
+func verifRecHN(kind byte, id int64, has, need *bool) {}
